@@ -251,6 +251,17 @@ def directed(rng):
         out.append(dict(n=len(specs), specs=specs, maxc=rng.choice([2, 3]), is_async=rng.random() < 0.3, sel=None, nested=False, op="setup",
                         setup_sel=dict(R=[0], X=None, T=None) if rng.random() < 0.7 else dict(R=None, X=None, T=[3]),
                         script=dict(seed=rng.randrange(1 << 30))))
+    for _ in range(6):
+        # a DEACTIVATED node X (picked first) with a dependant D that is gated by ANOTHER node F which has not run yet when X
+        # is pruned: D waits for F and runs (F is truthy) — a flag is judged when its producer has finished, never before
+        kind = rng.choice(["t", "t", "a", "m"])
+        specs = [node(prio=0, res=rng.choice(["t", "a"])),
+                 dict(node(prio=9, res=kind), flag=["c", rng.choice([False, 0, None])]),
+                 dict(node(preds=[1], prio=rng.choice([0, 5]), res=rng.choice(["t", "m"])), flag=["n", 0])]
+        if rng.random() < 0.5:
+            specs.append(node(preds=[2], prio=1, res="t"))
+        out.append(dict(n=len(specs), specs=specs, maxc=rng.choice([1, 2, 3]), is_async=rng.random() < 0.3, sel=None, nested=rng.random() < 0.2,
+                        script=dict(seed=rng.randrange(1 << 30))))
     for _ in range(4):
         # a tag carried by a non-sequential node and (later in the description) a sequential one, reconfigured through the tag
         # by an entry that states the priority only: both keep their own sequential flag
@@ -961,6 +972,8 @@ def monitors(sc, obs):
                             debug=bool(specs[i].get("dbg")), run_debug=bool(sc.get("run_debug")), debug_at_build=bool(sc.get("debug_at_build")))
                     if want == 1:
                         bad("C09", "returned-with-node-not-run", node=i)
+                        if specs[i]["flag"] is not None:
+                            bad("C10", "node-whose-flag-is-truthy-did-not-run", node=i, flag=specs[i]["flag"])
                     if specs[i].get("dbg"):
                         bad("C13", "debug-node-execution-count", node=i, got=counts.get(i, 0), want=want, flag=bool(sc.get("run_debug")))
             if sc.get("op") != "setup" and list(outcome[1]) != vals:
